@@ -149,7 +149,8 @@ mutual
       | some r => some r
       | none =>
         let (raw, s1) := parseParamPieces s0.rest.length s0
-        some (.str (unquote dec raw) s0.pos, s1)
+        -- the parse action of the `ZeroOrMore` alternative receives the location *before* white space
+        some (.str (unquote dec raw) s.pos, s1)
 
   /-- `ZeroOrMore(sep + parameter)` with `sep` = `Literal("-")` (`wide = false`) or `Word("-")` (`wide = true`) -/
   def parseDashParams (dec : List UInt8 → List Char) (wide : Bool) : Nat → PS → List Param × PS
@@ -295,8 +296,17 @@ def atEnd (s : PS) : Bool := s.skipWs.rest.isEmpty
 or descends one of a bounded number of grammar levels -/
 def parseFuel (s : List Char) : Nat := 8 * s.length + 16
 
+/-- `str.expandtabs()` (tab size 8), which pyparsing's `parseString` applies first -/
+def expandTabs : Nat → List Char → List Char
+  | _, [] => []
+  | col, c :: cs =>
+    if c == '\t' then List.replicate (8 - col % 8) ' ' ++ expandTabs 0 cs
+    else if c == '\n' || c == '\r' then c :: expandTabs 0 cs
+    else c :: expandTabs (col + 1) cs
+
 /-- `liquer.parser.parse` -/
-def parse (dec : List UInt8 → List Char) (text : List Char) : Option Query :=
+def parse (dec : List UInt8 → List Char) (text0 : List Char) : Option Query :=
+  let text := expandTabs 0 text0
   let s : PS := { rest := text, pos := 0 }
   let fuel := parseFuel text
   match parseRTQ dec fuel s with
